@@ -166,11 +166,14 @@ def ETree.yield : ETree → List OpTok
 
 /-- The grammar the harness writes for an operator table (harness/src/bin/c03/gram.rs `op_grammar`). -/
 def opGrammarRules (t : OpTable) : List (String × Rule) :=
+  -- binary operators that carry the same rule name are alternatives of one rule
+  let binNames := (t.bin.map (·.rule)).eraseDups
   [("program", Rule.sym "_e"),
-   ("_e", choiceOf ([Rule.sym "num", Rule.sym "paren"] ++ t.bin.map (fun b => Rule.sym b.rule) ++
+   ("_e", choiceOf ([Rule.sym "num", Rule.sym "paren"] ++ binNames.map (fun n => Rule.sym n) ++
       t.un.map (fun u => Rule.sym u.rule) ++ t.post.map (fun u => Rule.sym u.rule)))] ++
-  t.bin.map (fun b => (b.rule, Rule.prec (if b.right then .right else .left) b.level
-      (seqOf [Rule.sym "_e", Rule.str b.text, Rule.sym "_e"]))) ++
+  binNames.map (fun n => (n, choiceOf ((t.bin.filter fun b => b.rule == n).map fun b =>
+      Rule.prec (if b.right then .right else .left) b.level
+        (seqOf [Rule.sym "_e", Rule.str b.text, Rule.sym "_e"])))) ++
   t.un.map (fun u => (u.rule,
     if u.annotated then Rule.prec .plain u.level (seqOf [Rule.str u.text, Rule.sym "_e"])
     else seqOf [Rule.str u.text, Rule.sym "_e"])) ++
